@@ -8,7 +8,12 @@ def run(ctx):
     from checklib import REPO
     from tables import invariants as I
     ctx.pyvc(W.UNITS, MONITORS)
-    I.release_pairing(ctx, I.load_tables(REPO))
+    tabs = I.load_tables(REPO)
+    I.release_pairing(ctx, tabs)
+    from cfront import helpers as H
+    H.run(ctx, tabs, names=["ShroudStrAlloc", "ShroudStrFree", "ShroudStrArrayAlloc", "ShroudStrArrayFree"])
+    ctx.trusted.append("mini-C front end for the allocation helpers: every block allocated is large enough for every write, "
+                       "freed exactly once (free of a live malloc block), int ranges checked; malloc assumed to succeed")
     ctx.trusted += [
         "pyvc, z3 5.1, cvc5 1.0.3; str(int) injective on naturals (z3 str.from_int)",
         "util.wformat / append_format / append_format_cmds: trusted contracts (result abstract, may raise SystemExit)",
